@@ -99,7 +99,17 @@ def gen_universe(rng, n=None, heavy=0.08):
         keys['k%d' % i] = {'alg': alg, 'uid': [NAMES[i % len(NAMES)], rng.choice(['', 'c%d' % i]), 'k%d@example.org' % i],
                            'created_us': 1_400_000_000_000_000 + rng.choice([0, 0, 1, 86400 * 30, 86400 * 365 * 3]) * 1_000_000,
                            'usage': rng.choice(['CS', 'CS', 'C', 'CSE'])}
+    if rng.random() < 0.12:
+        k = keys['k0']
+        k['foreign_uid'] = 'Latin\xe9 N\xe4me <l@example.org>'.encode('latin-1').hex()
+        k['alg'] = 'ed25519'
     return keys
+
+
+def uid_octets(u):
+    """the octets of a user id as the object emits them (its text may have been decoded through PGPy's latin-1 fallback)"""
+    from .ref.wire import read_packet
+    return read_packet(bytes(u._uid.__bytearray__()))[0].body
 
 
 def gen_step(rng, sid, knames, weights=None):
@@ -164,7 +174,10 @@ class KeyHistory(object):
             spec = {'alg': c['alg'], 'uids': [c['uid']], 'usage': c.get('usage', 'CS'), 'subkeys': [], 'created_us': c['created_us'],
                     'created_tz': c.get('created_tz')}
             try:
-                k = world.build_key(spec, name)
+                if c.get('foreign_uid'):
+                    k = self._foreign_key(name, c)
+                else:
+                    k = world.build_key(spec, name)
             except (OverflowError, ValueError) as e:
                 # a creation time PGPy cannot represent (e.g. before the epoch once spelled in another zone)
                 ctx.probe('key_creation_refused')
@@ -175,8 +188,14 @@ class KeyHistory(object):
                 hk(self, name, k)
             tk = bridge.ref_tkey(bytes(k))
             mk = MKey(name, tk.pub.fingerprint, c['alg'], tk.pub.created)
-            mu = MUid('uid', k.userids[0].userid.encode('utf-8'))
-            mu.sigs.append(self._rec(bytes(k.userids[0].selfsig), 'self', name, usage=c.get('usage', 'CS')))
+            if c.get('foreign_uid'):
+                fu = tk.uids[0]
+                mu = MUid('uid', fu.pkt.body)
+                mu.sigs.append(self._rec(encode_packet(2, fu.sigs[0]), 'self', name, usage='CS'))
+                ctx.probe('foreign_non_utf8_uid')
+            else:
+                mu = MUid('uid', k.userids[0].userid.encode('utf-8'))
+                mu.sigs.append(self._rec(bytes(k.userids[0].selfsig), 'self', name, usage=c.get('usage', 'CS')))
             mk.uids.append(mu)
             self.priv[name] = k
             self.model[name] = mk
@@ -194,6 +213,15 @@ class KeyHistory(object):
     def key(self, name):
         return self.priv[name]
 
+    def _foreign_key(self, name, c):
+        """a secret key made by the reference peer whose user id is not valid UTF-8 (latin-1 octets), as old
+        keys in the wild have them"""
+        created = c['created_us'] // 1_000_000
+        rs = seams.rnd().run_seed
+        body, alg, sec = rkeys.gen_key('ed25519', created, seams.derive(rs, 'foreignkey:' + name, 'primary', 32))
+        tkb = bridge.build_ref_tkey(body, alg, sec, bytes.fromhex(c['foreign_uid']), created, secret_export=True)
+        return self.pgpy.PGPKey.from_blob(tkb)[0]
+
     def _unlocked(self, name):
         """context manager: private operations on a protected key run inside unlock()"""
         mk = self.model[name]
@@ -205,7 +233,7 @@ class KeyHistory(object):
 
     def _find_uid(self, k, mu):
         for u in (k.userids if mu.kind == 'uid' else k.userattributes):
-            if (mu.kind == 'uid' and u.userid.encode('utf-8') == mu.octets) or (mu.kind == 'uattr' and bytes(u.image) == mu.octets):
+            if (mu.kind == 'uid' and uid_octets(u) == mu.octets) or (mu.kind == 'uattr' and bytes(u.image) == mu.octets):
                 return u
         return None
 
